@@ -28,7 +28,7 @@ META = {
         'OS thread scheduling is not modelled: the theorem covers all interleavings of the abstract events, the '
         'harness samples real ones (partial)',
     ],
-    'assumptions': ['re-entering the same Config object is outside the property'],
+    'assumptions': ['entering a Config object while that same object is already open is outside the property (objects built ahead of time and entered later, also repeatedly, are covered)'],
 }
 
 _DEFAULT = None
@@ -51,27 +51,51 @@ class Marker(Exception):
 
 
 def gen_history(rng, depth, length):
-    """a properly nested event list for one thread"""
+    """a properly nested event list for one thread; `Config` objects are either built in the `with` statement
+    (enter) or built ahead of time (mkcfg) and entered later, possibly inside other blocks (enterobj) — never
+    while that same object is already open"""
     evs = []
+    defined: list[int] = []
+    open_objs: list[int] = []
+
+    def rand_kw():
+        kw = {}
+        for name, nvals in (('solver', 3), ('throw', 2), ('options', 3), ('callback', 3)):
+            if rng.random() < 0.4:
+                kw[name] = rng.randint(1, nvals - 1) if name != 'throw' else 1
+        return kw
 
     def block(d, budget):
         n = 0
         while n < budget:
             k = rng.random()
-            if k < 0.35 and d < depth:
-                kw = {}
-                for name, nvals in (('solver', 3), ('throw', 2), ('options', 3), ('callback', 3)):
-                    if rng.random() < 0.4:
-                        kw[name] = rng.randint(1, nvals - 1) if name != 'throw' else 1
-                evs.append(('enter', kw))
+            if k < 0.30 and d < depth:
+                usable = [o for o in defined if o not in open_objs]
+                if usable and rng.random() < 0.5:
+                    oid = rng.choice(usable)
+                    evs.append(('enterobj', oid))
+                    open_objs.append(oid)
+                else:
+                    oid = None
+                    evs.append(('enter', rand_kw()))
                 inner = rng.randint(0, max(0, budget - n - 2))
                 block(d + 1, inner)
+                if oid is not None:
+                    open_objs.remove(oid)
                 evs.append(('exitExc',) if rng.random() < 0.35 else ('exit',))
                 n += inner + 2
-            elif k < 0.55:
+            elif k < 0.42:
+                oid = rng.randint(1, 3)
+                if oid in open_objs:
+                    continue
+                evs.append(('mkcfg', oid, rand_kw()))
+                if oid not in defined:
+                    defined.append(oid)
+                n += 1
+            elif k < 0.58:
                 evs.append(('mk', rng.randint(1, 3)))
                 n += 1
-            elif k < 0.75:
+            elif k < 0.76:
                 evs.append(('apply', rng.randint(1, 3)))
                 n += 1
             else:
@@ -115,6 +139,7 @@ def one_case(ctx: Ctx, stream: str, i: int, depth: int) -> None:
 
     def worker(t):
         inverses = {}
+        objs = {}
         it = iter(zip(slot_of[t], hist[t]))
 
         def kwargs(kw):
@@ -145,6 +170,23 @@ def one_case(ctx: Ctx, stream: str, i: int, depth: int) -> None:
                     except Marker:
                         pass
                     observed[eslot] = 'N'
+                    done.release()
+                elif ev[0] == 'enterobj':
+                    try:
+                        with objs[ev[1]]:
+                            observed[slot] = ['cfg'] + tokens_of(Config.instance(), tables)
+                            seen_cfgs.append(Config.instance())
+                            done.release()
+                            how, eslot = run_block()
+                            if how == 'exitExc':
+                                raise Marker()
+                    except Marker:
+                        pass
+                    observed[eslot] = 'N'
+                    done.release()
+                elif ev[0] == 'mkcfg':
+                    objs[ev[1]] = Config(**kwargs(ev[2]))
+                    observed[slot] = 'N'
                     done.release()
                 elif ev[0] in ('exit', 'exitExc'):
                     return ev[0], slot      # the with statement above performs the exit
@@ -184,6 +226,9 @@ def one_case(ctx: Ctx, stream: str, i: int, depth: int) -> None:
         if ev[0] == 'enter':
             kw = ev[1]
             return ['enter'] + [str(kw[k]) if k in kw else 'N' for k in ('solver', 'throw', 'options', 'callback')]
+        if ev[0] == 'mkcfg':
+            kw = ev[2]
+            return ['mkcfg', str(ev[1])] + [str(kw[k]) if k in kw else 'N' for k in ('solver', 'throw', 'options', 'callback')]
         return [str(x) for x in ev]
     req = ['config-history'] + [[str(t)] + enc(ev) for t, ev in schedule]
     rep = ctx.model.ask(req)
@@ -218,13 +263,14 @@ def one_case(ctx: Ctx, stream: str, i: int, depth: int) -> None:
     for h in hist:
         d = 0
         for ev in h:
-            d += ev[0] == 'enter'
+            d += ev[0] in ('enter', 'enterobj')
             maxdepth = max(maxdepth, d)
             d -= ev[0] in ('exit', 'exitExc')
     nontrivial = maxdepth >= 2 or nthreads > 1 or any(ev[0] == 'exitExc' for h in hist for ev in h)
     ctx.case(str(cfg), nontrivial, sample={'threads': nthreads, 'events': len(schedule), 'depth': maxdepth,
                                            'schedule': cfg['schedule'][:12]})
     ctx.count(f'threads:{nthreads}')
+    ctx.count('prebuilt-config-blocks', sum(ev[0] == 'enterobj' for h in hist for ev in h))
     ctx.count(f'depth:{maxdepth}')
 
 
